@@ -107,7 +107,7 @@ func C07(c *Ctx) {
 		"(keys) the record is written under key (msg.id, msg.Height) resp. (msg.id, stored LastTimestampId+1) — the same id and height that were compared; (A3/A4) the cursor is advanced to exactly that height/id on every success path; " +
 		"(A7) field fidelity of the stored record: each stored field originates from the like-named message field (block time for SubTime), and the point query reads through the same key layout with the request's id and height; " +
 		"(A2) a rejecting length comparison exists for every hash field. Decides these structural necessary conditions on every path; the inductive claim 'all stored heights <= Lastblock' is not decided."
-	r.Rules = []string{"A1.record-writers", "A2.record-guards", "A7.record-key", "A3.cursor-update", "A7.record-fields", "A7.point-query-key", "A2.size-checks", "A7.exported-cursor", "A12.decode-fresh", "A3.element-carry", "A6.persistent-store", "A11.listing-order"}
+	r.Rules = []string{"A1.record-writers", "A2.record-guards", "A7.record-key", "A3.cursor-update", "A7.record-fields", "A7.point-query-key", "A2.size-checks", "A7.exported-cursor", "A12.decode-fresh", "A3.element-carry", "A6.persistent-store", "A11.listing-order", "A5.export-cap", "A7.import-fields", "A3.id-counter"}
 	for _, m := range []string{"wrkchain", "beacon"} {
 		r.Floor("loops of "+m+" on record, import and export paths judged for locals carried between elements", elementCarry(c, m, []string{"MSG", "INITGEN", "EXPORTGEN"}), 3)
 	}
@@ -121,6 +121,17 @@ func C07(c *Ctx) {
 	// "until it is pruned by the retention limit": the export hands the records over oldest first (the import takes the first
 	// as the oldest retained one, and pruning starts there)
 	r.Floor("collectors of stored entities judged for the order of their list", listingOrder(c), 5)
+	// ... the newest records are the ones exported, and what is exported is what is imported, field by field
+	exportCaps(c)
+	for _, m := range []string{"wrkchain", "beacon"} {
+		importFields(c, m)
+	}
+	// a registration never takes over an id that is in use (its cursor would start again at the first record)
+	for _, rm := range recMods {
+		if h := handlerOf(c, rm.M, rm.Register); h != nil {
+			idCounter(c, h, rm.SecReg, rm.SecHigh, "A3.id-counter", []string{rm.SecLimit})
+		}
+	}
 	decodeFresh(c, "wrkchain", "beacon")
 	for _, rm := range recMods {
 		isW := func(e ir.Effect) bool { return e.Kind == "StoreWrite" && e.Section == rm.SecRec }
@@ -377,11 +388,20 @@ func C09(c *Ctx) {
 	r.Explanation = "(A1) the id counter and the registration section are written only from the roots of the registration life-cycle; (A3) the register route reads the id from the counter section, stores the registration and the default limit, and stores counter := id + 1 on every success path; " +
 		"(A7) field fidelity of the registration literal: Moniker, Name, genesis hash / type come from the like-named message fields, Owner = str(addr(msg.Owner)), id = the counter value, cursor and counters zero, RegTime = block time, stored under the key of that id; " +
 		"(A4) every other writer of the registration section (the record step) re-stores the loaded registration with only the cursor/counter fields changed — never Owner, Moniker, Name, Genesis, Type, RegTime or the id; (A2) owner guards are those of C13/C07 with the id of the key written; (A7) genesis export hands the stored id counter (the next unused id) to the exported starting id, so an export/import cycle cannot re-issue an id. Uniqueness as an inductive property of the counter and uint64 wrap are not decided."
-	r.Rules = []string{"A1.registration-writers", "A3.id-counter", "A7.registration-fields", "A4.immutable-fields", "A7.exported-id-counter", "A12.decode-fresh", "A7.export-complete", "A7.export-fields", "A7.export-counters"}
+	r.Rules = []string{"A1.registration-writers", "A3.id-counter", "A7.registration-fields", "A4.immutable-fields", "A7.exported-id-counter", "A12.decode-fresh", "A7.export-complete", "A7.export-fields", "A7.export-counters", "A2.entitlement-guard"}
 	// a registration keeps existing across a restart: the export lists every one of them (no page of a query helper)
 	exportNotPaginated(c, "wrkchain", "beacon")
 	// ... with the fields it was stored with (nothing rewritten on the way out)
 	exportCountersRule(c, "", nil)
+	// "only that owner can record to it or purchase storage for it": the entitlement guard of C13 for the two modules' messages
+	for _, row := range entTable {
+		if row.Module != "wrkchain" && row.Module != "beacon" {
+			continue
+		}
+		if h := handlerOf(c, row.Module, row.Method); h != nil {
+			entitlementGuard(c, row, h)
+		}
+	}
 	exportGenesisArgs(c, "A7.exported-id-counter", true)
 	// a listing or an export hands back each registration as stored (no field inherited from the registration decoded before it)
 	decodeFresh(c, "wrkchain", "beacon")
@@ -486,7 +506,7 @@ func C08(c *Ctx) {
 		"(A2) in the purchase handler every state-changing step is guarded by the owner predicate (C13), by not(limit+number > params.MaxStorageLimit) and by the wrap check not(limit+number < limit), where limit is the stored limit of the registration named in the message; the stored new limit is exactly that checked sum, under the key of that id; " +
 		"(A9, sink-scoped) every uint64 +/- on message/state/param values in the functions reachable from the record and purchase handlers and the storage query is range-guarded by a dominating comparison (or is a ±1 counter step whose decrement is guarded by count > limit); " +
 		"(A3) in the record step the record write is followed by count+1, and a prune (delete) is always paired with count-1 and an update of the lowest/first marker, the decrement never occurring without a delete; (A7) the storage query reports the keeper's saturating remaining-capacity value. 'Exactly the newest min(total, limit) records' is inductive and not decided."
-	r.Rules = []string{"A1.limit-writers", "A2.purchase-guards", "A7.new-limit", "A9.uint64-range", "A3.prune-pairing", "A11.iter-end-bound", "A7.max-purchasable", "A3.lost-update", "A3.stale-element-pointer", "A3.element-carry", "A7.export-counters", "A7.import-accepts-export", "A2.record-guards"}
+	r.Rules = []string{"A1.limit-writers", "A2.purchase-guards", "A7.new-limit", "A9.uint64-range", "A3.prune-pairing", "A11.iter-end-bound", "A7.max-purchasable", "A3.lost-update", "A3.stale-element-pointer", "A3.element-carry", "A7.export-counters", "A7.import-accepts-export", "A2.record-guards", "A7.import-fields"}
 	lostUpdateControl(c)
 	// "the reported counters match what can actually be queried", across an export: the exported count and first-record
 	// marker are recomputed from the records that are exported (the export is capped), not copied from the stored counters
@@ -494,6 +514,9 @@ func C08(c *Ctx) {
 	// ... and every exported limit is written back as exported (a BEACON "still on the default" keeps its own entry: the
 	// fallback of the getter is a compile-time constant, not the parameter)
 	importRejects(c, "wrkchain", "beacon")
+	for _, m := range []string{"wrkchain", "beacon"} {
+		importFields(c, m)
+	}
 	r.Floor("state-changing steps of the WRKChain record handler behind the strict height test", recordsStrictlyHigher(c), 1)
 	r.Floor("functions of wrkchain scanned for dropped updates to record copies", lostUpdates(c, "wrkchain"), 20)
 	r.Floor("functions of beacon scanned for dropped updates to record copies", lostUpdates(c, "beacon"), 20)
